@@ -19,7 +19,7 @@ from vlib import common
 common.use_repo_sources()
 
 RULE = ("schedule: exhaustive grid over (n_burnin b, thin t, n_thetas n) incl. n=0 (quick b<=6,t<=4,n<=5; thorough b<=20,t<=8,n<=10) "
-        "+ out-of-domain t=0 / negative b for the tie only; the stub model starts dirty (non-zero step counter) so a missing/late reset shows; "
+        "+ a smaller grid with progress_bar=True + out-of-domain t=0 / negative b for the tie only; the stub model starts dirty (non-zero step counter) so a missing/late reset shows; "
         "generator: grid of seeds (0, 1, 2^32-1, 2^32, >2^64, random) x n_chains 1..6 x every chain index (+ out-of-range index, negative seed for the tie); "
         "models that already hold a generator (stub built with an rng; real SparseDrugCombo(rng=default_rng(123))), the same model object passed to sample() "
         "2-5 times (other seed, first seed again, other chain index / n_chains) and fresh models for repeated triples in shuffled orders, all in one process; "
@@ -129,8 +129,10 @@ def show_list(l):
 # ----------------------------------------------------------------------------------------------
 # running the real code
 # ----------------------------------------------------------------------------------------------
-def run_mcmc(n, b, t, seed=0, n_chains=1, idx=0):
-    """real sample() on the counting stub; returns a dict of observables"""
+def run_mcmc(n, b, t, seed=0, n_chains=1, idx=0, progress=False):
+    """real sample() on the counting stub; returns a dict of observables (progress: with progress_bar=True, tqdm output discarded)"""
+    import contextlib
+    import io
     from batchie.sampling import sample
     _State, CountingMCMC, _VI, Holder = _stubs()
     trace = []
@@ -138,7 +140,11 @@ def run_mcmc(n, b, t, seed=0, n_chains=1, idx=0):
     holder = Holder(n, trace, 1)
     out = {"error": None}
     try:
-        ret = sample(model, holder, seed=seed, n_chains=n_chains, chain_index=idx, n_burnin=b, thin=t)
+        if progress:
+            with contextlib.redirect_stderr(io.StringIO()):
+                ret = sample(model, holder, seed=seed, n_chains=n_chains, chain_index=idx, n_burnin=b, thin=t, progress_bar=True)
+        else:
+            ret = sample(model, holder, seed=seed, n_chains=n_chains, chain_index=idx, n_burnin=b, thin=t)
         out["returned_holder"] = ret is holder
     except Exception as e:  # noqa
         out["error"] = type(e).__name__
@@ -476,6 +482,17 @@ def run(ctx, res):
         expect.append("%d %s" % (0 if o["error"] is None else 1, show_list(o["trace"])))
         meta.append(case)
         res.traces_validated += 1
+    # the same schedule with the progress bar switched on (train_model --progress): both loops then run through a live tqdm
+    pb, pt, pn = ctx.scale((3, 3, 3), (6, 4, 4), (4, 3, 3))
+    for b, t, n in itertools.product(range(pb + 1), range(1, pt + 1), range(pn + 1)):
+        case = {"kind": "schedule", "n": n, "b": b, "t": t, "progress": True}
+        o = run_mcmc(n, b, t, progress=True)
+        res.evaluations += 1
+        oracle_schedule(res, case, o)
+        res.count("schedule.progress_bar")
+        lines.append("schedule %d %d %d" % (n, b, t))
+        expect.append("%d %s" % (0 if o["error"] is None else 1, show_list(o["trace"])))
+        meta.append(case)
     # a few larger ones
     rng = ctx.subrng("big")
     for _ in range(ctx.scale(10, 100)):
@@ -658,7 +675,7 @@ def show_trace(tr):
 def replay(ctx, case, res):
     k = case.get("kind")
     if k == "schedule":
-        oracle_schedule(res, case, run_mcmc(case["n"], case["b"], case["t"]))
+        oracle_schedule(res, case, run_mcmc(case["n"], case["b"], case["t"], progress=bool(case.get("progress"))))
     elif k == "rng":
         # twice in one process: a stream that depends on earlier calls shows on the second
         oracle_rng_single(res, case, rng_observe(case["seed"], case["n_chains"], case["idx"]))
@@ -666,8 +683,13 @@ def replay(ctx, case, res):
     elif k == "calls":
         oracle_calls(res, case, run_calls(case))
     elif k == "rng_pair":
-        oracle_rng_pair(res, case, rng_observe(case["seed_a"], case["n_a"], case["i_a"]), rng_observe(case["seed_b"], case["n_b"], case["i_b"]))
+        for _ in range(2):      # twice in one process (see "rng")
+            oracle_rng_pair(res, case, rng_observe(case["seed_a"], case["n_a"], case["i_a"]), rng_observe(case["seed_b"], case["n_b"], case["i_b"]))
     elif k == "vi":
+        # twice in one process, and once more after an MCMC call with the same seed: a generator that depends on earlier calls shows
+        oracle_vi(res, case, run_vi(case["seed"], case["n"]))
+        oracle_vi(res, case, run_vi(case["seed"], case["n"]))
+        rng_observe(case["seed"], 2, 1)
         oracle_vi(res, case, run_vi(case["seed"], case["n"]))
     else:
         run(ctx, res)
